@@ -20,7 +20,7 @@ THEOREMS = [
     "mpsc_per_producer_order", "mpsc_empty_justified", "mpsc_node_ownership",
     "spsc_exactly_once_fifo", "spsc_kth_pop_is_kth_push", "spsc_pop_returns_pushed_only",
     "spsc_program_order", "spsc_empty_justified", "spsc_node_ownership",
-    "mpscr_per_producer_fifo", "mpscr_exactly_once", "mpscr_empty_justified",
+    "mpscr_per_producer_fifo", "mpscr_exactly_once", "mpscr_per_producer_order", "mpscr_empty_justified",
     "mpscr_null_visits_all", "mpscr_node_ownership",
 ]
 PUSH, POP, REPUSH = 1, 2, 3
